@@ -34,13 +34,14 @@ type c07Witness struct {
 	// Shared: two sessions (Inputs, InputsB) served alternately through ONE flushing persister
 	Shared  bool  `json:"shared_persister,omitempty"`
 	InputsB qstrs `json:"inputs_b,omitempty"`
+	Lag     int   `json:"b_starts_after_requests_of_a,omitempty"`
 }
 
 // c07Shared serves two sessions of the same application alternately (A first) through one long-lived
 // persister that flushes after every save (Persister.WithFlush, re-pointed with WithSession) and one
 // store handle; each session is compared, request by request, with a twin that is served alone with a
 // fresh persister per request: same client-visible result and an equal stored snapshot.
-func c07Shared(ap corpusApp, cfgi int, ha, hb []string, c *mc.Ctx) (sig, msg string, reqs int) {
+func c07Shared(ap corpusApp, cfgi int, ha, hb []string, lag int, c *mc.Ctx) (sig, msg string, reqs int) {
 	cfg := ap.Cfgs[cfgi]
 	open := app.MemStore()
 	pe := persist.NewPersister(open()).WithFlush()
@@ -61,13 +62,19 @@ func c07Shared(ap corpusApp, cfgi int, ha, hb []string, c *mc.Ctx) (sig, msg str
 	solo := []*app.Session{mk("sA", false), mk("sB", false)}
 	hs := [][]string{ha, hb}
 	dead := []bool{false, false}
-	for k := 0; k < len(ha) || k < len(hb); k++ {
+	// lag: session B's first request comes after A has served lag requests (B is a new session for a
+	// persister that has just flushed A)
+	for k := 0; k < len(ha)+lag || k < len(hb)+lag; k++ {
 		for i := 0; i < 2; i++ {
-			if k >= len(hs[i]) || dead[i] {
+			k := k
+			if i == 1 {
+				k -= lag
+			}
+			if k < 0 || k >= len(hs[i]) || dead[i] {
 				continue
 			}
 			in := hs[i][k]
-			where := fmt.Sprintf("%s cfg %+v sessions A %q / B %q served alternately, request %d of session %c", ap.Name, cfg, shortList(ha), shortList(hb), k, 'A'+rune(i))
+			where := fmt.Sprintf("%s cfg %+v sessions A %q / B %q served alternately (B starts after %d requests of A), request %d of session %c", ap.Name, cfg, shortList(ha), shortList(hb), lag, k, 'A'+rune(i))
 			r := sh[i].Request([]byte(in))
 			w := solo[i].Request([]byte(in))
 			reqs += 2
@@ -246,7 +253,7 @@ func c07Replay(w json.RawMessage) (string, string) {
 		return "bad-witness", "unknown app"
 	}
 	if wit.Shared {
-		s, m, _ := c07Shared(ap, wit.Cfg, wit.Inputs, wit.InputsB, nil)
+		s, m, _ := c07Shared(ap, wit.Cfg, wit.Inputs, wit.InputsB, wit.Lag, nil)
 		return s, m
 	}
 	s, m, _ := c07History(ap, wit.Cfg, wit.Inputs, nil)
@@ -343,12 +350,14 @@ func c07Run(c *mc.Ctx) {
 				ha := append([]string{"", first}, ra...)
 				histories(sel, sd, func(rb []string) {
 					hb := append([]string{""}, rb...)
-					sig, msg, reqs := c07Shared(ap, 0, ha, hb, c)
-					c.Count("evaluations", 1)
-					c.Count("shared_persister_pairs", 1)
-					c.Count("transitions", int64(reqs))
-					if sig != "" {
-						c.Fail(sig, msg, c07Witness{App: ap.Name, Cfg: 0, Inputs: ha, Shared: true, InputsB: hb})
+					for _, lag := range []int{0, 2} {
+						sig, msg, reqs := c07Shared(ap, 0, ha, hb, lag, c)
+						c.Count("evaluations", 1)
+						c.Count("shared_persister_pairs", 1)
+						c.Count("transitions", int64(reqs))
+						if sig != "" {
+							c.Fail(sig, msg, c07Witness{App: ap.Name, Cfg: 0, Inputs: ha, Shared: true, InputsB: hb, Lag: lag})
+						}
 					}
 				})
 			})
